@@ -107,4 +107,31 @@ theorem doRelocation_spec {isa : String} {secs secs' : List Sec} {syms : List Sy
                   rw [← hout']
                   exact slice_splice (by omega)
 
+/-- the facts every per-type theorem starts from -/
+theorem site {isa : String} {secs secs' : List Sec} {syms : List Sym} {r : RelocEntry} {n : Nat}
+    (h : doRelocation isa secs syms r = .ok secs') (hsz : relocSize isa r.relocType = some n) (hn : 0 < n) :
+    ∃ S sec out,
+      symbolValue secs syms r.symbolId = .ok S ∧ getSec secs r.sect = some sec
+      ∧ Model.Reloc.apply isa r.relocType r.addend S (slice sec.data r.offset n) (sec.address + r.offset) = some (.ok out)
+      ∧ (slice sec.data r.offset n).length = n
+      ∧ getSec secs' r.sect = some { sec with data := splice sec.data r.offset out }
+      ∧ slice (splice sec.data r.offset out) r.offset n = out := by
+  obtain ⟨S, sec, size, out, h1, h2, h3, h4, h5, h6, h7, h8⟩ := doRelocation_spec h
+  rw [hsz] at h3
+  cases h3
+  refine ⟨S, sec, out, h1, h2, h4, h6, h7, h8 ?_⟩
+  rcases slice_full h6 with hh | hh <;> omega
+
+/-- what "the linked image at the site" means in the theorems below -/
+def linkedSite (secs' : List Sec) (r : RelocEntry) (n : Nat) : List Nat :=
+  match getSec secs' r.sect with
+  | some s => slice s.data r.offset n
+  | none => []
+
+theorem linkedSite_eq {secs' : List Sec} {r : RelocEntry} {n : Nat} {sec : Sec} {out : List Nat}
+    (h7 : getSec secs' r.sect = some { sec with data := splice sec.data r.offset out })
+    (h8 : slice (splice sec.data r.offset out) r.offset n = out) : linkedSite secs' r n = out := by
+  simp [linkedSite, h7, h8]
+
+
 end Proofs.LinkReloc
